@@ -230,7 +230,7 @@ ZeroOf(fk) ==
       [] fk = "map_string_int" -> M("typed", <<>>)
 FieldZero(s, p) ==
     LET f == FieldOf(s.layout, p.name) IN
-    IF Nullable(f) THEN None ELSE IF f.fk = "sub" THEN Some(ZeroStruct(p.type)) ELSE Some(ZeroOf(f.fk))
+    IF Nullable(f) THEN None ELSE IF f.fk \in {"sub", "wide"} THEN Some(ZeroStruct(p.type)) ELSE Some(ZeroOf(f.fk))
 ZeroStruct(s) == Struct(s.layout, [i \in DOMAIN s.props |-> <<s.props[i].name, FieldZero(s, s.props[i])>>])
 
 \* the native value of an object from the (optional) native value of each property
